@@ -523,7 +523,9 @@ def run_check(prop: str, tier: str, harness_filter=None, workers=None) -> int:
                 "path (unsat of the negation) or yields a model that is replayed concretely. "
                 "Finite-domain 'choices' (fault menus, call programs, cut points) are enumerated "
                 "exhaustively by the same depth-first search. Verdicts hold within the bounds listed "
-                "per harness and say nothing outside them."
+                "per harness and say nothing outside them. z3's unsat verdicts on assertions are re-decided "
+                "by cvc5 where a harness lists second_solver_cvc5; a harness that did not close inside its "
+                "wall-time budget has exhaustive_within_bounds=false."
             ),
             "evaluations": total_paths,
             "distinct_nontrivial": nontrivial,
